@@ -34,12 +34,30 @@ import contextlib
 import click
 from .errors import CompilerError
 
+class _RaisingErrorListener(antlr4.error.ErrorListener.ErrorListener):
+    '''turns every syntax error that the lexer or the parser reports into a
+    CompilerError, instead of printing it and carrying on with a repaired input.'''
+    def __init__(self, filename):
+        self.filename = filename
+    def syntaxError(self, recognizer, offendingSymbol, line, column, msg, e):
+        raise CompilerError(self.filename, None, msg, line, column)
+
 def _compile_prolog_from_stream(inp, ctx):
     '''compiles prolog source from an antlr4 stream.'''
+    filename = getattr(ctx, 'current_source_file', '')
+    listener = _RaisingErrorListener(filename)
     lexer = prologLexer(inp)
+    lexer.removeErrorListeners()
+    lexer.addErrorListener(listener)
     stream = CommonTokenStream(lexer)
     parser = prologParser(stream)
+    parser.removeErrorListeners()
+    parser.addErrorListener(listener)
     tree = parser.program()
+    # the grammar's start rule does not demand the end of the input
+    token = stream.LT(1)
+    if token.type != Token.EOF:
+        raise CompilerError(filename, None, f"unexpected '{token.text}'", token.line, token.column)
     visitor = YPPrologVisitor(ctx)
     program = visitor.visit(tree)
     compiler = YPPrologCompiler(ctx)
